@@ -26,7 +26,6 @@ pub(super) struct State {
     last_ref_inc: Option<Access>,
     last_ref_dec: Option<Access>,
     last_ref_inspect: Option<Access>,
-    last_ref_modification: Option<RefModify>,
 }
 
 /// Actions performed on the Arc
@@ -46,18 +45,6 @@ pub(super) enum Action {
     Inspect,
 }
 
-/// Actions which modify the Arc's reference count
-///
-/// This is used to ascertain dependence for Action::Inspect
-#[derive(Debug, Copy, Clone, PartialEq)]
-enum RefModify {
-    /// Corresponds to Action::RefInc
-    RefInc,
-
-    /// Corresponds to Action::RefDec
-    RefDec,
-}
-
 impl Arc {
     pub(crate) fn new(location: Location) -> Arc {
         rt::execution(|execution| {
@@ -68,7 +55,6 @@ impl Arc {
                 last_ref_inc: None,
                 last_ref_dec: None,
                 last_ref_inspect: None,
-                last_ref_modification: None,
             });
 
             trace!(?state, %location, "Arc::new");
@@ -181,29 +167,27 @@ impl State {
         }
     }
 
-    pub(super) fn last_dependent_access(&self, action: Action) -> Option<&Access> {
-        match action {
-            // RefIncs are not dependent w/ RefDec, only inspections
-            Action::RefInc => self.last_ref_inspect.as_ref(),
-            Action::RefDec => self.last_ref_dec.as_ref(),
-            Action::Inspect => match self.last_ref_modification {
-                Some(RefModify::RefInc) => self.last_ref_inc.as_ref(),
-                Some(RefModify::RefDec) => self.last_ref_dec.as_ref(),
-                None => None,
-            },
+    /// Calls `f` with every earlier access the given action is dependent with.
+    ///
+    /// Clones and drops change the count an inspection returns, so they are
+    /// dependent with inspections in both directions. Drops are dependent
+    /// between each other, clones are not.
+    pub(super) fn for_each_dependent_access(&self, action: Action, mut f: impl FnMut(&Access)) {
+        let (first, second) = match action {
+            Action::RefInc => (&self.last_ref_inspect, &None),
+            Action::RefDec => (&self.last_ref_dec, &self.last_ref_inspect),
+            Action::Inspect => (&self.last_ref_inc, &self.last_ref_dec),
+        };
+
+        for access in first.iter().chain(second.iter()) {
+            f(access);
         }
     }
 
     pub(super) fn set_last_access(&mut self, action: Action, path_id: usize, version: &VersionVec) {
         match action {
-            Action::RefInc => {
-                self.last_ref_modification = Some(RefModify::RefInc);
-                Access::set_or_create(&mut self.last_ref_inc, path_id, version)
-            }
-            Action::RefDec => {
-                self.last_ref_modification = Some(RefModify::RefDec);
-                Access::set_or_create(&mut self.last_ref_dec, path_id, version)
-            }
+            Action::RefInc => Access::set_or_create(&mut self.last_ref_inc, path_id, version),
+            Action::RefDec => Access::set_or_create(&mut self.last_ref_dec, path_id, version),
             Action::Inspect => Access::set_or_create(&mut self.last_ref_inspect, path_id, version),
         }
     }
